@@ -6,6 +6,7 @@
 import GocoinV.Proofs.C19
 import GocoinV.Proofs.C19Effects
 import GocoinV.Proofs.C19Reopen
+import GocoinV.Proofs.C19Run
 import GocoinV.Gen.QdbFacts
 namespace GocoinV.Props.C19
 open GocoinV GocoinV.Qdb GocoinV.QdbSpec GocoinV.Proofs.C19
@@ -153,10 +154,77 @@ theorem reopen_after_close_identity_partial (db : DB) (h : Cached db) (hwf : Ind
     rw [hc.1, hc.2]
     exact ⟨o2, o3⟩
 
--- OPEN: reopen_after_close_identity — the same for the LOG path (Close = sync appends to qdbidx.log; reopen
---   replays snapshot + log) and for stores with NO_CACHE / not-loaded records. Needs the invariant
---   "snapshot + well-formed log describe the index for every key that is not pending". The pieces
---   index_log_roundtrip / index_snapshot_roundtrip above are proved; the invariant over sync is not.
+/-- Reopen identity, every history of a non-volatile store (snapshot AND log path). Start on an empty
+    directory (any LoadData / options), run ANY sequence of Put / PutExt / Del / Get / Browse / ApplyFlags /
+    Defrag / Sync / NoSync that never sets NO_CACHE — with all the automatic syncs and forced defrags the
+    thresholds cause — under the side conditions `RunFits` (keys are 64-bit, flags 32-bit, the data file stays
+    below 4 GiB); then Close and NewDBExt(LoadData) in any mode: the store opens without failure and every key
+    has exactly the value the in-memory map `mrun [] ops` gives it (absent keys are absent).
+    The proof carries the invariant `DiskInv` ("snapshot + log entries describe every key that is not pending,
+    its bytes are where the index says, data files only grow") through every operation and replays
+    `loadneweridx` / `loaddat` / `loadlog` / `cleanupold` / `load` on the final directory. -/
+theorem reopen_after_close_identity_nonvolatile_partial (load : Bool) (opts : Opts) (ops : List Op)
+    (ok : ∀ op ∈ ops, OpOK op) (fits : RunFits (openDB {} false load opts) ops)
+    (hsz : SizeOK (run (openDB {} false load opts) ops)) (vol' : Bool) (opts' : Opts) :
+    (run (openDB {} false load opts) (ops ++ [.reopen vol' true opts'])).failed = none ∧
+    ∀ k, mget (absv (run (openDB {} false load opts) (ops ++ [.reopen vol' true opts']))) k = mget (mrun [] ops) k := by
+  have inv0 := fresh_inv load opts
+  have inv := run_inv ops _ inv0 ok fits
+  obtain ⟨hc, habs⟩ := run_cached ops _ inv0.cached ok
+  have habs0 : absv (openDB {} false load opts) = [] := by cases load <;> rfl
+  rw [habs0] at habs
+  obtain ⟨sinv, sabs, spe, _⟩ := sync_inv _ inv hsz
+  obtain ⟨o1, o2⟩ := open_of_inv _ sinv spe vol' opts'
+  have hclose : (close (run (openDB {} false load opts) ops)).failed = none ∧
+      (close (run (openDB {} false load opts) ops)).fs = (sync (run (openDB {} false load opts) ops)).fs := by
+    unfold close
+    rw [if_neg (notFailed hc)]
+    simp only [inv.nv, Bool.false_eq_true, ↓reduceIte, sinv.cached.1]
+    exact ⟨trivial, trivial⟩
+  have hrun : run (openDB {} false load opts) (ops ++ [.reopen vol' true opts']) =
+      step (run (openDB {} false load opts) ops) (.reopen vol' true opts') := by
+    simp [run, List.foldl_append]
+  rw [hrun]
+  show (match (close (run (openDB {} false load opts) ops)).failed with
+      | some _ => close (run (openDB {} false load opts) ops)
+      | none => { openDB (close (run (openDB {} false load opts) ops)).fs vol' true opts' with
+                  effs := (close (run (openDB {} false load opts) ops)).effs ++
+                    (openDB (close (run (openDB {} false load opts) ops)).fs vol' true opts').effs }).failed = none ∧
+      ∀ k, mget (absv (match (close (run (openDB {} false load opts) ops)).failed with
+      | some _ => close (run (openDB {} false load opts) ops)
+      | none => { openDB (close (run (openDB {} false load opts) ops)).fs vol' true opts' with
+                  effs := (close (run (openDB {} false load opts) ops)).effs ++
+                    (openDB (close (run (openDB {} false load opts) ops)).fs vol' true opts').effs })) k = _
+  rw [hclose.1, hclose.2]
+  refine ⟨o1, ?_⟩
+  intro k
+  have hm : ∀ d : DB, mget (absv d) k = (ilookup k d.index).map valOf := by
+    intro d
+    unfold mget
+    rw [ilookup_absv, Option.map_map]
+    rfl
+  show mget (absv (openDB (sync (run (openDB {} false load opts) ops)).fs vol' true opts')) k = _
+  rw [hm, o2 k, ← hm, sabs, habs]
+
+/-- non-vacuity of reopen_after_close_identity_nonvolatile_partial: automatic sync at every change (MaxPending 0),
+    overwrite, delete, forced defrag, then more changes -/
+example :
+    let ops := [Op.put 1 [1, 2], .put 2 [], .put 1 [9], .del 2, .defrag true, .putExt 3 [7] NO_BROWSE, .sync]
+    (∀ op ∈ ops, OpOK op) ∧ RunFits (openDB {} false true { maxPending := 0 }) ops ∧
+    SizeOK (run (openDB {} false true { maxPending := 0 }) ops) := by
+  refine ⟨?_, ?_, ?_⟩
+  · intro op hop
+    simp only [List.mem_cons, List.not_mem_nil, or_false] at hop
+    rcases hop with rfl | rfl | rfl | rfl | rfl | rfl | rfl <;> simp [OpOK] <;> decide
+  · simp only [RunFits, OpFits, SizeOK]
+    decide
+  · simp only [SizeOK]
+    decide
+
+-- OPEN: reopen_after_close_identity in full: (i) Count / Browse-as-a-set after the reopen (needs: two association
+--   lists with distinct keys and equal lookups have equal length); (ii) a second reopen in the same history (needs:
+--   the invariant holds again for the opened store — open's own removals do not change what open computes);
+--   (iii) volatile stores without unsaved changes, stores with NO_CACHE / not-loaded records (LoadData = false).
 -- OPEN: qdb_durable — ∀ ops, ∀ n ≤ |effs|, openDB (crashFS fs0 db n) does not fail and every key holds its
 --   last synced value or a later written one. fs_is_replay_of_effects (crash states = prefixes) is proved;
 --   the recovery argument per prefix is only checked by the harness (all crash points x hits of every run).
